@@ -28,6 +28,17 @@ def len (xs : List Rat) : Int := (xs.length : Int)
 /-- `int(x)` : truncation towards zero -/
 def trunc (x : Rat) : Int := if 0 ≤ x then x.floor else -((-x).floor)
 
+/-- `xs[a:b]` for `0 ≤ a` (bounds beyond the end are clipped, as Python does) -/
+def slice (xs : List Rat) (a b : Int) : List Rat := (xs.drop a.toNat).take (b.toNat - a.toNat)
+
+def sum : List Rat → Rat
+  | [] => 0
+  | x :: xs => x + sum xs
+
+/-- `np.trapz(ys, dx=d)` : `d · Σ (y_j + y_{j+1}) / 2` -/
+def trapz (ys : List Rat) (d : Rat) : Rat :=
+  d * sum ((List.range (ys.length - 1)).map (fun j => (ys.getD j 0 + ys.getD (j + 1) 0) / 2))
+
 /-- `math.fabs` -/
 def fabs (x : Rat) : Rat := if x < 0 then -x else x
 
